@@ -202,6 +202,20 @@ func engineCacheHist(ctx *Ctx) {
 				}
 			}
 		}
+		if ctx.G(h)%6 == 4 && len(db.Commands) > 0 && dbName != "shipped" {
+			// requests that differ in one byte that is not valid UTF-8 (a Latin-1 letter typed into a UTF-8 terminal): a word of the
+			// database that holds a letter with an accent, misspelt, once with the byte 0xE9 and once with 0xE8 / 0xFF in the
+			// accent's place
+			for _, w := range []string{"café", "résumé", "déjà"} {
+				i := r.Intn(len(db.Commands))
+				db.Commands[i].Description += " " + w
+				raw := strings.NewReplacer("é", "\xe9", "à", "\xe0").Replace(w)
+				typo := raw[:1] + raw[2:]
+				pool = append(pool, typo, strings.Replace(typo, "\xe9", "\xe8", 1), strings.Replace(typo, "\xe9", "\xff", 1))
+			}
+			db.BuildUniversalIndex()
+			ctx.R.Path("histories-with-queries-differing-in-one-invalid-byte", 1)
+		}
 		if ctx.G(h)%4 == 1 {
 			// long requests that differ only in a small part: the same text up to a byte offset near a power of two / the 1000-byte
 			// query bound, then different words (and the mirror image: different words first, then the same long tail)
@@ -360,6 +374,16 @@ func engineCacheHist(ctx *Ctx) {
 					st1 := cdb.GetCacheStats()["search"]
 					hit := st1.Hits > st0.Hits
 					cand := vlib.Canon(db.Commands, got)
+					if len(got) > 1 && s%2 == 0 {
+						// the caller does with its answer what callers do (re-sorts it, rescales the scores, cuts it): the list belongs to
+						// the caller, and a later answer to the same request is unaffected
+						got[0], got[len(got)-1] = got[len(got)-1], got[0]
+						for i := range got {
+							got[i].Score = -1 - got[i].Score
+						}
+						got[0].Command = nil
+						ctx.R.Path("answers-edited-in-place-by-the-caller", 1)
+					}
 					refs, stable := vlib.StableRef(5, func() vlib.Ranked { return vlib.Canon(db.Commands, db.SearchUniversal(q, o)) })
 					verdict, why := vlib.CompareToRef(refs, stable, cand, vlib.LimitInForce(o.Limit))
 					if hit {
